@@ -11,6 +11,7 @@ ID = "C18"
 
 
 def targets():
+    import jax
     import jax.numpy as jnp
     from genjax import categorical, flip, gen, normal, sel
     from genjax.inference import hmc, mala, mh
@@ -41,7 +42,13 @@ def targets():
         save(score=tr.get_score())
         return tr
 
+    def inner_scan(tr):
+        # a composite kernel that runs its sub-moves in an inner lax.scan and saves only inside it
+        out, _ = jax.lax.scan(lambda t, _: (mh(t, sel("x") | sel("z")), None), tr, jnp.arange(3))
+        return out
+
     return {
+        "cont_inner_scan": (t_cont, (0.3,), {"y": 1.2}, inner_scan, ["x", "z"], None),
         "cont_mh": (t_cont, (0.3,), {"y": 1.2}, lambda t: mh(t, sel("x")), ["x"], True),
         "cont_mala": (t_cont, (0.3,), {"y": 1.2}, lambda t: mala(t, sel("x") | sel("z"), 0.3), ["x", "z"], True),
         "cont_hmc": (t_cont, (0.3,), {"y": 1.2}, lambda t: hmc(t, sel("z"), 0.2, 3), ["z"], True),
@@ -96,8 +103,8 @@ def check_full(R, n, c):
     ch = jax.tree_util.tree_map(np.asarray, F.traces.get_choices())
     acc = np.asarray(F.accepts)
     lead = (n,) if c == 1 else (c, n)
-    if acc.shape != lead:
-        return [(f"full.accepts_shape:{C}", f"accepts shape {acc.shape} != {lead}")]
+    if acc.shape[: len(lead)] != lead or (R.name != "cont_inner_scan" and acc.shape != lead) or (R.name == "cont_inner_scan" and acc.shape != lead + (3,)):
+        return [(f"full.accepts_shape:{C}", f"accepts shape {acc.shape}: expected leading axes {lead}{' + (3,) (three saved sub-moves per step)' if R.name == 'cont_inner_scan' else ''}")]
     for a, v in ch.items():
         if v.shape[: len(lead)] != lead:
             return [(f"full.leading_axes:{C}", f"choices['{a}'] shape {v.shape}: expected leading axes {lead} (chains, steps)")]
@@ -116,9 +123,11 @@ def check_full(R, n, c):
                 if a not in R.moved and not np.array_equal(cur[a], prev[a]):
                     fails.append((f"full.unselected_changed:{C}", f"step {i}: address {a} not selected by the kernel changed"))
             changed = any(not np.array_equal(cur[a], prev[a]) for a in R.moved)
-            ac = bool(sel(acc)[i])
+            ac = bool(np.any(sel(acc)[i]))
             if R.cont is True and changed != ac:
                 fails.append((f"full.accepts_vs_state_change:{C}", f"chain {ci} step {i}: accepts[{i}]={ac} but the state {'changed' if changed else 'did not change'} relative to the previous retained state (first state must be one kernel step after the initial trace)"))
+            if R.cont is None and R.name == "cont_inner_scan" and changed != ac:
+                fails.append((f"full.accepts_vs_state_change:{C}", f"chain {ci} step {i}: saved sub-move accepts {np.asarray(sel(acc)[i]).tolist()} but the state {'changed' if changed else 'did not change'}"))
             if R.cont is False and changed and not ac:
                 fails.append((f"full.accepts_vs_state_change:{C}", f"chain {ci} step {i}: state changed although accepts[{i}] is False"))
             lp = float(sel(logps)[i])
